@@ -52,7 +52,7 @@ CORE = ['wl_registry', 'wl_callback', 'wl_compositor', 'wl_shm', 'wl_shm_pool', 
         'xdg_popup', 'xdg_positioner', 'wl_data_device_manager', 'wl_data_device', 'wl_data_source', 'zwlr_layer_shell_v1',
         'zwlr_layer_surface_v1', 'zxdg_decoration_manager_v1', 'wp_viewporter', 'zwp_linux_dmabuf_v1']
 UNKNOWN_IFACES = ['my_unknown_iface', 'zz_custom_v9', 'new', 'x']
-STRS = ['', 'a', 'hello world', 'a, b', 'x) y', '(p', '[q]', 'wl_surface@3', 'nil', '12', 'new id wl_a@4', 'ünï', "it's", 'fd 3',
+STRS = ['', 'a', 'wl_seat', 'wl_shm', 'hello world', 'a, b', 'x) y', '(p', '[q]', 'wl_surface@3', 'nil', '12', 'new id wl_a@4', 'ünï', "it's", 'fd 3',
         'array', ' lead', 'trail ', 'org.gnome.gedit', 'foo.bar.Baz', 'title: x', '}', '{', '1.5', '[1.0] a@1.b(']
 FREE_NAMES = ['ping', 'set_thing', 'done', 'new', 'destroyed', 'configure', 'commit']
 I32 = [0, 1, -1, 7, 2, 3, 4, 8, 16, 272, 273, 274, -2147483648, 2147483647]
@@ -134,6 +134,8 @@ class ConnGen:
         if t == 'string':
             if pa.allow_null and d.chance(0.3):
                 return ['str', None]
+            if self.profile.get('long_strings') and d.chance(0.04):
+                return ['str', d.choice(['L', 'ab ', 'x, ']) * d.choice([1400, 2100, 4200])]     # lines of 4-13 kB
             return ['str', d.choice(STRS)]
         if t == 'array':
             return ['array', d.choice([0, 4, 8, 12, 20, 64])]
